@@ -76,12 +76,17 @@ def _alarm(signum, frame):
     raise HarnessTimeout()
 
 
-def execute(prop, workload, seed=None, replay=None, params=None, keep_trace=True):
+def execute(prop, workload, seed=None, replay=None, params=None, keep_trace=True, tmp=None):
     """One run.  Returns a JSON-able outcome dict."""
     interpose.install()
-    # fixed-width name: pickled absolute paths must have the same length in every
-    # process, or write sizes (part of the event log) would depend on the pid
-    base = tempfile.mkdtemp(prefix="xsim-{:08d}-".format(os.getpid() % 10**8), dir=XSIM_TMP)
+    # Every run lives in <XSIM_TMP>/xsimb-XXXXXXXX/xsim-PPPPPPPP-XXXXXXXX: the batch
+    # directory is swept when the batch ends (also after a crashed worker), and the
+    # fixed-width names keep pickled absolute paths equally long in every process -
+    # otherwise write sizes (part of the event log) would depend on the pid.
+    own_tmp = None
+    if tmp is None:
+        tmp = own_tmp = tempfile.mkdtemp(prefix="xsimb-", dir=XSIM_TMP)
+    base = tempfile.mkdtemp(prefix="xsim-{:08d}-".format(os.getpid() % 10**8), dir=tmp)
     tape = Tape(seed=seed, replay=replay)
     ctx = Ctx(prop, tape, base, params)
     calllog.reset()
@@ -124,6 +129,8 @@ def execute(prop, workload, seed=None, replay=None, params=None, keep_trace=True
                 w.sched.shutdown()
         interpose.set_world(None)
         shutil.rmtree(base, ignore_errors=True)
+        if own_tmp is not None:
+            shutil.rmtree(own_tmp, ignore_errors=True)
     fired = collections.Counter()
     probes = collections.Counter()
     ops = collections.Counter()
@@ -159,7 +166,7 @@ def execute(prop, workload, seed=None, replay=None, params=None, keep_trace=True
 
 
 def _worker(args):
-    prop, workload_name, root_seed, indices, params, want_samples = args
+    prop, workload_name, root_seed, indices, params, want_samples, batch_tmp = args
     faulthandler.enable()
     from . import registry
 
@@ -170,7 +177,7 @@ def _worker(args):
         p = dict(params or {})
         p["run_index"] = i
         o = execute(prop, workload, seed=seed, params=p,
-                    keep_trace=True)
+                    keep_trace=True, tmp=batch_tmp)
         slim = {
             "i": i, "seed": seed, "digest": o["digest"], "key": o["key"],
             "nontrivial": o["nontrivial"], "fired": o["fired"],
@@ -202,8 +209,20 @@ def run_batch(prop, workload_name, nruns, root_seed, params=None, workers=None,
     results = []
     timed_out = False
     ctxmp = multiprocessing.get_context("fork")
+    batch_tmp = tempfile.mkdtemp(prefix="xsimb-", dir=XSIM_TMP)
+    try:
+        return _run_batch(prop, workload_name, root_seed, params, workers, wall_cap,
+                          chunks, want, batch_tmp, ctxmp, t0)
+    finally:
+        shutil.rmtree(batch_tmp, ignore_errors=True)
+
+
+def _run_batch(prop, workload_name, root_seed, params, workers, wall_cap, chunks, want,
+               batch_tmp, ctxmp, t0):
+    results = []
+    timed_out = False
     with concurrent.futures.ProcessPoolExecutor(workers, mp_context=ctxmp) as ex:
-        futs = [ex.submit(_worker, (prop, workload_name, root_seed, c, params, want))
+        futs = [ex.submit(_worker, (prop, workload_name, root_seed, c, params, want, batch_tmp))
                 for c in chunks]
         try:
             for f in concurrent.futures.as_completed(
